@@ -280,6 +280,16 @@ def run(chk):
                             in_k, ck = False, True
                 return [(in_c, in_k, ck)]
 
+            # the segment-count member(s): integer members assigned from the size of a container (durations.size())
+            int_fields = {x["name"] for x in F.record(cls)["fields"] if x["ty"].get("c") == "int"}
+            count_members = set()
+            for g_ in F.funcs(cls):
+                for p_, h_, n_ in E.function_writes_local(g_):
+                    if p_[0] == "this" and len(p_) == 2 and p_[1] in int_fields:
+                        rhs_ = write_rhs(n_)
+                        if rhs_ is not None and any(x_.get("k") == "call" and callee(x_).get("name") == "size" for x_ in walk(rhs_)):
+                            count_members.add(p_[1])
+
             def branch3(cond, pol, st, ctx):
                 # premise of every property: at least one segment.  A comparison of the segment count with 0 / 1 has one
                 # feasible outcome, however it is written (count <= 0, count > 0, 0 < count, count >= 1, !(count > 0) ...)
@@ -293,7 +303,7 @@ def run(chk):
                     if lit_value(l) is not None and lit_value(r) is None:
                         l, r = r, l
                         op = {"<": ">", "<=": ">=", ">": "<", ">=": "<=", "==": "==", "!=": "!="}[op]
-                    if is_this_mem(l) and "segment" in l["field"] and l["field"].startswith("num") and lit_value(r) in ("0", "1"):
+                    if is_this_mem(l) and l["field"] in count_members and lit_value(r) in ("0", "1"):
                         k_ = int(lit_value(r))
                         # truth for every count >= 1, if it is the same for all of them
                         vals = {eval("n %s %d" % (op, k_)) for n in (1, 2, 7)}
